@@ -399,7 +399,6 @@ Proof.
     try (rewrite ?lenN_nil; lia).
   - split; [|lia]. unfold lenN. rewrite flat_map_u16_length, sort_n_length.
     destruct data as [|x r]; [cbn; lia|]. destruct (pairs16_length r x) as [_ P]. cbn [length]. lia.
-  - destruct b0; rewrite ?lenN_nil; lia.
 Qed.
 
 Lemma unpack_svcb_go_size fuel : forall msg off last acc l o,
